@@ -161,3 +161,10 @@ mod tests {
         assert!(!bitset.value(10_u64));
     }
 }
+
+// Verification hook (inactive unless built with `--cfg agdb_verif` under Kani).
+#[cfg(all(agdb_verif, kani))]
+#[allow(unused, dead_code, clippy::all)]
+pub(crate) mod verif_h {
+    include!(concat!(env!("AGDB_VERIF_HARNESS"), "/bit_set_h.rs"));
+}
